@@ -241,6 +241,69 @@ class VDict(V):
         self.d = d
 
 
+class VStar(V):
+    """`*seq` argument whose length is symbolic; understood only by models that say so (struct.pack)"""
+
+    def __init__(self, v):
+        self.v = v
+
+
+class VStrRep(V):
+    """the string  prefix + unit * count  with a symbolic count (struct format strings)"""
+
+    def __init__(self, prefix, unit, count):
+        self.prefix, self.unit, self.count = prefix, unit, count
+
+
+class VTupSeq(V):
+    """Python list (symbolic length) of equal-arity tuples of ints, e.g. [(hash, sig), ...]:
+    one Seq column per tuple position; all columns have the same length (assumed where a fresh
+    one is created, kept by every operation).  arity >= 1 is a Python int."""
+
+    def __init__(self, cols, pytype='list'):
+        self.cols = list(cols)
+        self.arity = len(self.cols)
+        self.pytype = pytype
+        if self.arity < 1:
+            raise Unsupported('tuple list of arity 0')
+
+    @staticmethod
+    def from_items(items, arity):
+        cols = [smt.s_empty] * arity
+        for it in items:
+            if not isinstance(it, (VTuple, VList)) or len(it.items) != arity or \
+                    not all(isinstance(x, VInt) for x in it.items):
+                raise Unsupported('tuple list element %r (arity %d expected)' % (it, arity))
+            cols = [smt.s_concat(c, smt.s_single(x.t)) for c, x in zip(cols, it.items)]
+        return VTupSeq(cols)
+
+    def len(self):
+        return VInt(slen(self.cols[0]))
+
+    def same_len(self):
+        return z3.And([slen(c) == slen(self.cols[0]) for c in self.cols[1:]] + [z3.BoolVal(True)])
+
+    def __getitem__(self, k):
+        k = _lift(k)
+        idx = z3.If(k.t < 0, k.t + slen(self.cols[0]), k.t)
+        return VTuple([VInt(sat(c, idx)) for c in self.cols])
+
+    def appended(self, tup):
+        return VTupSeq([smt.s_concat(c, smt.s_single(x.t)) for c, x in zip(self.cols, tup.items)], self.pytype)
+
+    def mutate_(self, ex, name, args, st, line):
+        """in-place list methods (protocol of builtins_model.mutating_method)"""
+        if name == 'append' and len(args) == 1 and isinstance(args[0], (VTuple, VList)) \
+                and len(args[0].items) == self.arity and all(isinstance(x, VInt) for x in args[0].items):
+            return [], (st, self.appended(args[0]), VNone())
+        raise Unsupported('%s on a tuple list with %r (line %d)' % (name, args, line))
+
+    __hash__ = None
+
+    def __repr__(self):
+        return 'VTupSeq(%s)' % (self.cols,)
+
+
 class VObj(V):
     """Heap object with executor-level identity `oid`.  `cls` is a live Python
     class, the name of an external model, or None."""
@@ -356,6 +419,8 @@ def truthy(v):
         return slen(v.t) > 0
     if isinstance(v, (VTuple, VList)):
         return z3.BoolVal(len(v.items) > 0)
+    if isinstance(v, VTupSeq):
+        return slen(v.cols[0]) > 0
     if isinstance(v, VStr):
         return z3.BoolVal(len(v.s) > 0)
     if isinstance(v, VDict):
@@ -688,6 +753,9 @@ def fresh_like(v, base):
         return VOpaque(z3.Const(fresh_name(base), Val))
     if isinstance(v, VTuple):
         return VTuple([fresh_like(x, base) for x in v.items])
+    if isinstance(v, VTupSeq):
+        # NOTE: the creator must assume .same_len() for the fresh value
+        return VTupSeq([z3.Const(fresh_name('%s.%d' % (base, i)), Seq) for i in range(v.arity)], v.pytype)
     if isinstance(v, (VNone, VStr, VPy)):
         return VOpaque(z3.Const(fresh_name(base), Val))
     raise Unsupported('havoc of %r' % (v,))
@@ -738,4 +806,6 @@ def same_value(a, b):
         return len(a.items) == len(b.items) and all(same_value(x, y) for x, y in zip(a.items, b.items))
     if isinstance(a, VDict):
         return a.d is b.d
+    if isinstance(a, VTupSeq):
+        return a.arity == b.arity and all(x.eq(y) for x, y in zip(a.cols, b.cols))
     return a is b
